@@ -804,7 +804,19 @@ func c17(c *Ctx) {
 				return true
 			}
 			sel, ok := ast.Unparen(rs.X).(*ast.SelectorExpr)
-			if !ok || astx.FieldSel(info, sel) != channels {
+			if !ok {
+				return true
+			}
+			// The walk is over every channel of the network, or over the session's own membership set
+			// (s.Channels, equal to the set of channels that list the session as long as membership is
+			// symmetric, which is what C14.M1/M2 establish) with the channel looked up in i.channels.
+			own := false
+			if f := astx.FieldSel(info, sel); f != nil && f == c.P.Field("ircserver", "Session", "Channels") {
+				if id, ok := ast.Unparen(sel.X).(*ast.Ident); ok && astx.Obj(info, id) == sParam {
+					own = true
+				}
+			}
+			if astx.FieldSel(info, sel) != channels && !own {
 				return true
 			}
 			for _, st := range rs.Body.List {
